@@ -906,6 +906,9 @@ def run(prog: Program, chk: Check) -> None:  # noqa: F811
     guard(chk, r12_12, prog, chk)
     guard(chk, r12_13, prog, chk)
     guard(chk, r12_14, prog, chk)
+    guard(chk, r12_15, prog, chk)
+    guard(chk, r12_16, prog, chk)
+    guard(chk, r12_17, prog, chk)
 
 # ------------------------------------------------------------------- R12.11
 def _null_yielding_scope_managers(prog: Program) -> Dict[str, ast.AST]:
@@ -1186,7 +1189,9 @@ def r12_14(prog: Program, chk: Check) -> None:
                     v = v.args[0]  # bool(<operation>) inside the guard: what is stored is a bool
                 runs_user_code = (
                     # `in` / `not in` / `is` always produce a bool (the conversion happens inside the expression); == < ... return what the object returns
-                    (isinstance(v, ast.Compare) and any(isinstance(o, (ast.Eq, ast.NotEq, ast.Lt, ast.LtE, ast.Gt, ast.GtE)) for o in v.ops) and any(_is_payload(o, tainted) for o in [v.left] + list(v.comparators)))
+                    # (len() / hash() / id() of a payload are ints: comparing them gives a bool)
+                    (isinstance(v, ast.Compare) and any(isinstance(o, (ast.Eq, ast.NotEq, ast.Lt, ast.LtE, ast.Gt, ast.GtE)) for o in v.ops)
+                     and any(_is_payload(o, tainted) and not (isinstance(o, ast.Call) and isinstance(o.func, ast.Name) and o.func.id in ("len", "hash", "id")) for o in [v.left] + list(v.comparators)))
                     or (isinstance(v, ast.Call) and any(_is_payload(a, tainted) for a in v.args) and isinstance(v.func, ast.Name) and v.func.id in local_names)
                     or (isinstance(v, ast.Call) and _is_payload(v.func, tainted))
                     or (isinstance(v, ast.BinOp) and (_is_payload(v.left, tainted) or _is_payload(v.right, tainted)))
@@ -1207,3 +1212,240 @@ def r12_14(prog: Program, chk: Check) -> None:
                     )
     chk.analysed["truth_tests_of_user_results"] = n
     chk.analysed["user_results_stored_under_a_guard"] = checked_sites
+
+
+# ------------------------------------------------------------------- R12.15
+def r12_15(prog: Program, chk: Check) -> None:
+    chk.rule(
+        "R12.15",
+        "what a value class prints of a literal is produced under a guard: in the __str__ methods of the Value classes - the text every diagnostic that mentions a value is built "
+        "from - repr() / str() / an f-string conversion of a literal payload runs inside a try block that catches Exception, directly or in a helper whose own conversion is "
+        "guarded; the payload is an object of the checked program (a raising __repr__) or an int with more digits than int-to-str conversion allows (`10 ** 5000`)",
+        floor=2,
+    )
+    value_classes = set(prog.subclasses("Value"))
+    helpers_ok: Dict[str, bool] = {}
+
+    def helper_is_guarded(name: str) -> bool:
+        if name not in helpers_ok:
+            ok = False
+            for mname in prog.modules:
+                try:
+                    f = prog.func(mname, name)
+                except Exception:
+                    continue
+                params = {a.arg for a in f.args.args}
+                convs = [c for c in walk_no_nested(f) if isinstance(c, ast.Call) and isinstance(c.func, ast.Name) and c.func.id in ("repr", "str", "format") and c.args and isinstance(c.args[0], ast.Name) and c.args[0].id in params]
+                convs += [c for c in walk_no_nested(f) if isinstance(c, ast.FormattedValue) and isinstance(c.value, ast.Name) and c.value.id in params]
+                ok = bool(convs) and all((lambda t: t is not None and _handler_is_broad(t))(_enclosing_try(c, f)) for c in convs)
+                if ok:
+                    break
+            helpers_ok[name] = ok
+        return helpers_ok[name]
+
+    n = 0
+    for cname in sorted(value_classes):
+        ci = prog.classes.get(cname)
+        if ci is None or "__str__" not in ci.methods:
+            continue
+        fn = ci.methods["__str__"]
+        tainted = _payload_taint(fn)
+        for node in walk_no_nested(fn):
+            conv = None
+            if isinstance(node, ast.FormattedValue) and _is_payload(node.value, tainted):
+                conv = node.value
+            elif isinstance(node, ast.Call) and isinstance(node.func, ast.Name) and node.args and _is_payload(node.args[0], tainted):
+                if node.func.id in ("repr", "str", "format"):
+                    conv = node.args[0]
+                elif helper_is_guarded(node.func.id):
+                    n += 1
+                    chk.ob("R12.15", f"{ci.module.name}::{cname}.__str__::{node.func.id}({norm(node.args[0])})", True, prog.site(ci.module.name, node), "")
+                    continue
+            if conv is None:
+                continue
+            t = _enclosing_try(node, fn)
+            n += 1
+            chk.ob(
+                "R12.15",
+                f"{ci.module.name}::{cname}.__str__::text-of::{norm(conv)}",
+                t is not None and _handler_is_broad(t),
+                prog.site(ci.module.name, node),
+                f"`{norm(node)[:60]}` in {cname}.__str__ converts a literal of the checked program to text outside a guard: a raising __repr__ (or an int too long to print) turns every diagnostic that mentions the value into an internal_error",
+            )
+    chk.analysed["literal_text_sites"] = n
+
+
+# ------------------------------------------------------------------- R12.16
+def r12_16(prog: Program, chk: Check) -> None:
+    chk.rule(
+        "R12.16",
+        "an operator function picked from a table and applied to a literal payload runs under a guard: `op = TABLE[...]` / `op, _, _ = TABLE[type(node)]` followed by "
+        "`op(x.val, y)` executes user code (or raises TypeError for operands that do not support the comparison, as in `sys.version_info >= \"3.8\"`); every such call is inside a "
+        "try block that catches Exception. Likewise len() of a payload that may be a range (an enclosing isinstance test names `range`) is inside a handler for OverflowError",
+        floor=3,
+    )
+    n = 0
+    for m, q, fn in prog.iter_functions():
+        if m.startswith("test_"):
+            continue
+        tainted = _payload_taint(fn)
+        table_locals: Set[str] = set()
+        for st in walk_no_nested(fn):
+            if isinstance(st, ast.Assign) and isinstance(st.value, ast.Subscript) and isinstance(st.value.value, ast.Name) and st.value.value.id.isupper():
+                for t in st.targets:
+                    table_locals |= {x.id for x in ast.walk(t) if isinstance(x, ast.Name) and isinstance(x.ctx, ast.Store)}
+            if isinstance(st, ast.Assign) and isinstance(st.value, ast.IfExp) and all(isinstance(b, ast.Name) and b.id in table_locals for b in (st.value.body, st.value.orelse)):
+                table_locals |= {t.id for t in st.targets if isinstance(t, ast.Name)}
+        # closures see the operator locals of the enclosing function
+        outer = parent(fn)
+        while outer is not None and not isinstance(outer, (ast.FunctionDef, ast.AsyncFunctionDef)):
+            outer = parent(outer)
+        if outer is not None:
+            for st in walk_no_nested(outer):
+                if isinstance(st, ast.Assign) and isinstance(st.value, ast.Subscript) and isinstance(st.value.value, ast.Name) and st.value.value.id.isupper():
+                    for t in st.targets:
+                        table_locals |= {x.id for x in ast.walk(t) if isinstance(x, ast.Name) and isinstance(x.ctx, ast.Store)}
+            for st in walk_no_nested(fn):
+                if isinstance(st, ast.Assign) and isinstance(st.value, ast.IfExp) and all(isinstance(b, ast.Name) and b.id in table_locals for b in (st.value.body, st.value.orelse)):
+                    table_locals |= {t.id for t in st.targets if isinstance(t, ast.Name)}
+        for call in walk_no_nested(fn):
+            if not isinstance(call, ast.Call) or not isinstance(call.func, ast.Name):
+                continue
+            if call.func.id in table_locals and any(_is_payload(a, tainted) for a in call.args):
+                t = _enclosing_try(call, fn)
+                n += 1
+                chk.ob("R12.16", f"{m}::{q}::operator-on-payload::{norm(call)[:50]}", t is not None and _handler_is_broad(t), prog.site(m, call),
+                       f"`{norm(call)[:70]}` applies an operator function to a literal of the checked program outside a try block that catches Exception")
+            elif call.func.id == "len" and call.args and _is_payload(call.args[0], tainted):
+                names_range = False
+                child, cur = call, parent(call)
+                while cur is not None and child is not fn:
+                    if isinstance(cur, ast.If) and child in cur.body and "range" in norm(cur.test) and "isinstance" in norm(cur.test):
+                        names_range = True
+                    child, cur = cur, parent(cur)
+                if not names_range:
+                    continue
+                t = _enclosing_try(call, fn)
+                ok = t is not None and (_handler_is_broad(t) or any("OverflowError" in norm(h.type) for h in t.handlers if h.type is not None))
+                n += 1
+                chk.ob("R12.16", f"{m}::{q}::len-of-range::{norm(call)[:50]}", ok, prog.site(m, call),
+                       f"`{norm(call)}` may be the length of a range: len(range(10 ** 30)) raises OverflowError")
+    chk.analysed["operator_calls_on_payloads"] = n
+
+
+# ------------------------------------------------------------------- R12.17
+def r12_17(prog: Program, chk: Check) -> None:
+    import itertools
+
+    from ..minterp import AssertionFailed, Interp, ModelError, Obj, PyRaise, Sym, Unsupported
+
+    chk.rule(
+        "R12.17",
+        "a signature built from a legal def header is a valid signature, as a finite model: Signature.make (which turns `*args: Unpack[tuple[X, Y]]` into positional-only "
+        "parameters and `**kwargs: Unpack[TD]` into keyword-only ones) followed by Signature.validate, with KIND_TO_ALLOWED_PREVIOUS / CAN_HAVE_DEFAULT read from the module, is "
+        "interpreted for every header of up to two positional-only, two positional-or-keyword and one keyword-only parameter (defaults trailing, as the grammar demands), an "
+        "optional *args annotated plainly or with a fixed tuple of one or two members, and an optional **kwargs annotated plainly or with a TypedDict: validate never raises "
+        "InvalidSignature - it is raised wherever the signature is needed and reported as internal_error",
+        floor=2,
+    )
+    sig = prog.cls("Signature")
+    make, validate = sig.methods.get("make"), sig.methods.get("validate")
+    if make is None or validate is None:
+        raise AnchorError("Signature.make / Signature.validate not found")
+    kinds = ("POSITIONAL_ONLY", "POSITIONAL_OR_KEYWORD", "VAR_POSITIONAL", "KEYWORD_ONLY", "VAR_KEYWORD", "PARAM_SPEC", "ELLIPSIS")
+    PK = Obj("ParameterKindCls", **{k: Obj("ParameterKind", name=k) for k in kinds})
+    tables: Dict[str, ast.AST] = {}
+    for st in prog.module("signature").tree.body:
+        if isinstance(st, ast.Assign) and len(st.targets) == 1 and isinstance(st.targets[0], ast.Name) and st.targets[0].id in ("KIND_TO_ALLOWED_PREVIOUS", "CAN_HAVE_DEFAULT"):
+            tables[st.targets[0].id] = st.value
+    if set(tables) != {"KIND_TO_ALLOWED_PREVIOUS", "CAN_HAVE_DEFAULT"}:
+        raise AnchorError("KIND_TO_ALLOWED_PREVIOUS / CAN_HAVE_DEFAULT are not module-level displays of pyanalyze.signature")
+
+    def hook(v, cls):
+        if cls in ("SequenceValue", "TypedDictValue"):
+            return isinstance(v, Obj) and v._kind == cls
+        return None
+
+    def sigparam(args, kwargs=None):
+        d = dict(zip(("name", "kind", "default", "annotation"), args))
+        d.update(kwargs or {})
+        d.setdefault("kind", PK._attrs["POSITIONAL_OR_KEYWORD"])
+        d.setdefault("default", None)
+        d.setdefault("annotation", Obj("Value"))
+        return Obj("SigParameter", **d)
+
+    sigparam.wants_kwargs = True  # type: ignore[attr-defined]
+    funcs = {
+        "SigParameter": sigparam, "AnyValue": lambda a: Obj("Value"), "GenericValue": lambda a: Obj("Value"), "TypedValue": lambda a: Obj("Value"),
+        "InvalidSignature": lambda a: Obj("InvalidSignature", message=""),
+        "safe_getattr": lambda a: a[2] if len(a) > 2 else None,
+    }
+    base_globals = {"ParameterKind": PK, "AnySource": Obj("AnySource", unannotated=Sym("unannotated"), marker=Sym("marker")), "__concrete_fstrings__": False}
+    it0 = Interp({}, {}, (), funcs, hook, {}, {}, dict(base_globals))
+    try:
+        allowed = it0.ev(tables["KIND_TO_ALLOWED_PREVIOUS"])
+        can_default = it0.ev(tables["CAN_HAVE_DEFAULT"])
+    except Unsupported as u:
+        raise AnchorError(f"the parameter-kind tables cannot be evaluated: {u}")
+
+    def seq(n):
+        members = [Obj("Value") for _ in range(n)]
+        return Obj("SequenceValue", get_member_sequence=lambda members=members: list(members))
+
+    td = Obj("TypedDictValue", items={"k1": Obj("TypedDictEntry", typ=Obj("Value"), required=True), "k2": Obj("TypedDictEntry", typ=Obj("Value"), required=False)}, extra_keys=None)
+    invalid, crashes = [], []
+    n = 0
+    for npo, npok, nko in itertools.product(range(3), range(3), range(2)):
+        npos = npo + npok
+        for ndef in range(npos + 1):  # the last `ndef` positional parameters have defaults
+            for vp in (None, "plain", 1, 2):
+                for vk in (None, "plain", "td"):
+                    for ko_default in ((False, True) if nko else (False,)):
+                        params = []
+                        header = []
+                        for i in range(npos):
+                            kind = "POSITIONAL_ONLY" if i < npo else "POSITIONAL_OR_KEYWORD"
+                            has_def = i >= npos - ndef
+                            params.append(sigparam([f"p{i}", PK._attrs[kind]], {"default": Obj("Value") if has_def else None}))
+                            header.append(f"p{i}" + ("=0" if has_def else ""))
+                            if i == npo - 1:
+                                header.append("/")
+                        if vp is not None:
+                            params.append(sigparam(["args", PK._attrs["VAR_POSITIONAL"]], {"annotation": Obj("Value") if vp == "plain" else seq(vp)}))
+                            header.append("*args" + ("" if vp == "plain" else f": Unpack[tuple[{', '.join(['int'] * vp)}]]"))
+                        elif nko:
+                            header.append("*")
+                        for j in range(nko):
+                            params.append(sigparam([f"k{j}", PK._attrs["KEYWORD_ONLY"]], {"default": Obj("Value") if ko_default else None}))
+                            header.append(f"k{j}" + ("=0" if ko_default else ""))
+                        if vk is not None:
+                            params.append(sigparam(["kwargs", PK._attrs["VAR_KEYWORD"]], {"annotation": Obj("Value") if vk == "plain" else td}))
+                            header.append("**kwargs" + ("" if vk == "plain" else ": Unpack[TD]"))
+                        n += 1
+                        d = {"header": "def f(" + ", ".join(header) + ")"}
+                        created: List[Obj] = []
+
+                        def ctor(*a, **k):
+                            o = Obj("Signature", parameters=a[0], **{kk: vv for kk, vv in k.items()})
+                            created.append(o)
+                            return o
+
+                        cls_obj = Obj("SignatureCls", __call__=ctor)
+                        it = Interp({}, {}, (), funcs, hook, {}, {}, dict(base_globals, KIND_TO_ALLOWED_PREVIOUS=allowed, CAN_HAVE_DEFAULT=can_default))
+                        try:
+                            s_obj = it.call_def(make, [cls_obj, params, Obj("Value")], make)
+                            it.call_def(validate, [s_obj], validate)
+                        except Unsupported as u:
+                            raise AnchorError(f"Signature.make / validate cannot be modelled: {u}")
+                        except PyRaise as pr:
+                            if pr.kind == "InvalidSignature":
+                                invalid.append({**d, "parameters after make": [f"{p._attrs['name']}:{p._attrs['kind']._attrs['name']}" + ("=…" if p._attrs["default"] is not None else "") for p in (created[0]._attrs["parameters"].values() if created else [])]})
+                            else:
+                                crashes.append({**d, "error": str(pr)})
+                        except (AssertionFailed, ModelError) as e:
+                            crashes.append({**d, "error": str(e)})
+    chk.model_evaluations += n
+    site = prog.site("signature", make)
+    invalid.sort(key=lambda x: len(x["header"]))
+    chk.ob("R12.17", "signature::Signature.make::a legal header gives a valid signature", not invalid, site, f"{n} headers, {len(invalid)} rejected by Signature.validate" + (f"; smallest: {invalid[0]}" if invalid else ""), witness=invalid[:5])
+    chk.ob("R12.17", "signature::Signature.make::no-crash", not crashes, site, f"{len(crashes)} crashes" + (f"; first: {crashes[0]}" if crashes else ""), witness=crashes[:3])
